@@ -10,6 +10,8 @@
 import concurrent.futures
 import os
 import random
+import signal
+import subprocess
 import re
 import time
 import zlib
@@ -289,7 +291,8 @@ def gen_write(rng, sid, big):
     s = Scn(sid, pages)
     kind = rng.choice(["pipe_w", "pipe_w", "sock"])
     s.kind = kind
-    s.add("fd %s %d 0" % (kind, rng.choice([4096, 4096, 8192, 65536, 0])))
+    cap = rng.choice([4096, 4096, 8192, 65536, 0])     # pipe size / SO_SNDBUF (0 = default)
+    s.add("fd %s %d 0" % (kind, cap))
     s.add("chan")
     s.water(pick_water(rng, s.chunk))
     if rng.chance(1, 8):
@@ -311,6 +314,8 @@ def gen_write(rng, sid, big):
         if big and k == 0:
             sz = rng.choice([1 << 20, (1 << 20) + 1, 900001])
         sz = cap_size(sz, high, s.chunk)
+        if 0 < cap <= 8192:
+            sz = min(sz, 300000)      # a small pipe means ~4 KiB per write(): keep the number of system calls per byte sane
         s.op(True, sz, hs=rng.choice([0, 0, 300]), frags=frag_sizes(rng, sz, s.chunk), woff=woff)
         woff += sz
         if rng.chance(1, 4):
@@ -698,51 +703,162 @@ def coq_case(s, o, ev):
     return cfg, opt, rs, ob, ("true" if stop else "false"), ("true" if close else "false") + (" true" if fderr else " false")
 
 
+# ---- running the model inside coqc.  Wall-clock limits are a safety net only: a batch that times out or whose coqc dies is
+# NOT a verdict; it is re-run alone (no parallelism), split in halves down to single scenarios.  The bound on the search is
+# the node budget of Model/IoOp.v explain (deterministic: verdict -1); besides that, only a SINGLE scenario that exhausts
+# its CPU-time budget (ulimit -t, measured by the kernel, independent of the machine's load) counts as "the model cannot
+# explain this run within budget" (verdict -2).
+CPU_SINGLE = 600          # CPU seconds for one scenario (the heaviest observed, a 1 MiB write in 8 KiB pieces, needs ~30)
+WALL_SINGLE = 3600        # safety net
+WALL_BATCH = 900
+
+
+def _workers(cap):
+    try:
+        load = os.getloadavg()[0]
+    except OSError:
+        load = 0.0
+    free = (os.cpu_count() or 4) - load
+    return max(1, min(cap, int(free / 2)))
+
+
+def _coq_run(name, body, wall, cpu):
+    """compile one generated file; returns (status, printed values, cpu seconds used, tail of the output)
+    status: ok | cpu (CPU budget exhausted) | wall (killed by the safety net) | crash (anything else, e.g. out of memory)"""
+    d = os.path.join(common.CACHE, "cases")
+    os.makedirs(d, exist_ok=True)
+    name = "%s_%d" % (name, os.getpid())
+    p = os.path.join(d, name + ".v")
+    with open(p, "w") as fh:
+        fh.write("From Coq Require Import ZArith List Bool.\nImport ListNotations.\n"
+                 "From Verif Require Import Word IoOp.\nLocal Open Scope Z_scope.\n")
+        fh.write(body)
+    out = p + ".out"
+    cmd = ["bash", "-c", "ulimit -v %d; ulimit -t %d; exec coqc -q -w -notation-overridden -Q Base Verif -Q Gen Verif "
+           "-Q Model Verif -Q Proofs Verif -Q Properties Verif -Q Extract Verif -Q %s Cases %s"
+           % (common.COQ_MEM_KB, int(cpu), d, p)]
+    t0 = time.time()
+    with open(out, "w") as fo:
+        proc = subprocess.Popen(cmd, cwd=common.coq_dir(), stdout=fo, stderr=subprocess.STDOUT)
+    killed = False
+    while True:
+        pid, st, ru = os.wait4(proc.pid, os.WNOHANG)
+        if pid:
+            break
+        if time.time() - t0 > wall:
+            proc.kill()
+            pid, st, ru = os.wait4(proc.pid, 0)
+            killed = True
+            break
+        time.sleep(0.05)
+    proc.returncode = st
+    used = ru.ru_utime + ru.ru_stime
+    try:
+        txt = open(out).read()
+    except OSError:
+        txt = ""
+    for f in (p, out, p[:-2] + ".vo", p[:-2] + ".glob", p[:-2] + ".vok", p[:-2] + ".vos",
+              os.path.join(d, "." + name + ".aux")):
+        try:
+            os.unlink(f)
+        except OSError:
+            pass
+    if killed:
+        return "wall", [], used, txt[-600:]
+    if os.WIFEXITED(st) and os.WEXITSTATUS(st) == 0:
+        vals = re.findall(r"^\s*= (.*?)\n\s+: ", txt, flags=re.S | re.M)
+        return "ok", vals, used, txt[-600:]
+    if os.WIFSIGNALED(st) and os.WTERMSIG(st) in (signal.SIGXCPU, signal.SIGKILL) and used >= cpu - 2:
+        return "cpu", [], used, txt[-600:]
+    return "crash", [], used, ("exit status %s; " % st) + txt[-600:]
+
+
+def _case_body(part):
+    body = []
+    for j, (cfg, opt, rs, ob, st, cl) in enumerate(part):
+        body.append("Definition c%d := explain_op %s %s %s %s %s %s." % (j, cfg, st, cl, opt, rs, ob))
+    body.append("Eval vm_compute in [%s]." % "; ".join("c%d" % j for j in range(len(part))))
+    return "\n".join(body) + "\n"
+
+
+def _eval_part(tag, part, wall, cpu):
+    st, vals, used, raw = _coq_run(tag, _case_body(part), wall, cpu)
+    if st == "ok":
+        v = driver.ints(vals[0]) if len(vals) == 1 else []
+        if len(v) == len(part):
+            return "ok", v, used, raw
+        return "crash", [], used, "unexpected output: " + raw
+    return st, [], used, raw
+
+
+def _resolve(tag, part, log):
+    """sequential: whole part, then halves, down to single scenarios"""
+    if len(part) == 1:
+        for attempt in range(2):
+            st, v, used, raw = _eval_part(tag, part, WALL_SINGLE, CPU_SINGLE)
+            log.append("single %s attempt %d: %s, %.0f CPU s" % (tag, attempt, st, used))
+            if st == "ok":
+                return v
+            if st == "cpu":
+                return [-2]
+        return [None]          # inconclusive: neither a result nor an exhausted CPU budget (starved or killed from outside)
+    st, v, used, raw = _eval_part(tag, part, WALL_BATCH, CPU_SINGLE)
+    log.append("group %s (%d): %s, %.0f CPU s" % (tag, len(part), st, used))
+    if st == "ok":
+        return v
+    h = len(part) // 2
+    return _resolve(tag + "a", part[:h], log) + _resolve(tag + "b", part[h:], log)
+
+
 def model_check(cases):
-    """cases: list of (cfg, op, rs, ob, stop, close+fderr). returns list of verdicts (1 reproduced, 0 not reproducible,
-    -1 search cut off by its node budget, None evaluation failed / timed out), raw"""
-    B = 20
+    """cases: list of (cfg, op, rs, ob, stop, close+fderr).  Returns (verdicts, log): 1 reproduced, 0 not reproducible,
+    -1 search cut off by its node budget, -2 a single scenario exhausted its CPU budget, None inconclusive"""
+    B = 15
     parts = [cases[k:k + B] for k in range(0, len(cases), B)]
+    log = []
+    w = _workers(4)
+    log.append("first pass: %d batches, %d in parallel (load %.1f)" % (len(parts), w, os.getloadavg()[0]))
 
     def one(idx_part):
         idx, part = idx_part
-        body = []
-        for j, (cfg, opt, rs, ob, st, cl) in enumerate(part):
-            body.append("Definition c%d := explain_op %s %s %s %s %s %s." % (j, cfg, st, cl, opt, rs, ob))
-        body.append("Eval vm_compute in [%s]." % "; ".join("c%d" % j for j in range(len(part))))
-        ok, vals, raw = driver.coq_eval("c14_cases_%d" % idx, ["Word", "IoOp"], "\n".join(body) + "\n", timeout=120)
-        if not ok or len(vals) != 1:
-            return [None] * len(part), raw
-        v = driver.ints(vals[0])
-        if len(v) != len(part):
-            return [None] * len(part), raw
-        return v, ""
+        return _eval_part("c14_b%d" % idx, part, WALL_BATCH, CPU_SINGLE)
 
-    res, raw_all = [], ""
-    with concurrent.futures.ThreadPoolExecutor(max_workers=4) as ex:
-        for v, raw in ex.map(one, list(enumerate(parts))):
+    first = []
+    with concurrent.futures.ThreadPoolExecutor(max_workers=w) as ex:
+        first = list(ex.map(one, list(enumerate(parts))))
+    res = []
+    for idx, (part, (st, v, used, raw)) in enumerate(zip(parts, first)):
+        if st == "ok":
             res += v
-            raw_all += raw
-    return res, raw_all
+        else:
+            log.append("batch %d: %s after %.0f CPU s -> re-run alone" % (idx, st, used))
+            res += _resolve("c14_r%d" % idx, part, log)
+    return res, log
+
+
+def _eval_text(tag, body):
+    """one small evaluation with retries (used for constants and diagnostics)"""
+    raw = ""
+    for attempt in range(3):
+        st, vals, used, raw = _coq_run(tag, body, WALL_BATCH, CPU_SINGLE)
+        if st == "ok" and vals:
+            return vals[0], raw
+    return None, raw
 
 
 def model_predict(case):
     cfg, opt, rs, ob, st, cl = case
-    body = "Eval vm_compute in predict 4000 %s (st_init %s) %s.\n" % (cfg, opt, rs)
-    ok, vals, raw = driver.coq_eval("c14_predict", ["Word", "IoOp"], body, timeout=300)
-    if ok and vals:
-        return " ".join(vals[0].split())[:1500]
+    v, raw = _eval_text("c14_predict", "Eval vm_compute in predict 4000 %s (st_init %s) %s.\n" % (cfg, opt, rs))
+    if v is not None:
+        return " ".join(v.split())[:1500]
     return "(prediction failed: %s)" % raw[-300:]
 
 
-EXPECTED_K = None
-
-
 def check_consts(consts):
-    ok, vals, raw = driver.coq_eval("c14_consts", ["Word", "IoOp"], "Eval vm_compute in model_constants.\n", timeout=120)
-    if not ok or not vals:
+    v, raw = _eval_text("c14_consts", "Eval vm_compute in model_constants.\n")
+    if v is None:
         return ["model constants could not be evaluated: " + raw[-500:]]
-    m = driver.ints(vals[0])
+    m = driver.ints(v)
     k = [l for l in consts if l.startswith("K ")]
     if not k:
         return ["harness printed no constants"]
@@ -757,11 +873,11 @@ def run_all(ctx, scns):
     if exe is None:
         return None, msg
     patfile, base = pattern_file()
-    W = 6
+    W = _workers(6)
     groups = [scns[k::W] for k in range(W)]
     res, consts = {}, []
     with concurrent.futures.ThreadPoolExecutor(max_workers=W) as ex:
-        for r, c in ex.map(lambda g: run_harness(exe, patfile, g) if g else ({}, []), groups):
+        for r, c in ex.map(lambda g: run_harness(exe, patfile, g, timeout=1800) if g else ({}, []), groups):
             res.update(r)
             consts += c
     return (res, consts, base), ""
@@ -819,23 +935,25 @@ def correspond(ctx):
             owners.append((s, i))
             sigs.add((c[1], c[2], c[3]))
     t1 = time.time()
-    verdicts, raw = model_check(cases)
+    verdicts, mlog = model_check(cases)
     t2 = time.time()
-    nbad = 0
+    nbad = ninc = 0
     for v, c, (s, i) in zip(verdicts, cases, owners):
         if v == 1:
             continue
+        if v is None:
+            ninc += 1          # no verdict (see _resolve); reported in the notes, never an alarm by itself
+            continue
         nbad += 1
         if nbad <= 6:
-            what = {None: "the model evaluation failed or timed out for the batch containing",
-                    0: "the model cannot reproduce (for any placement of stop / timer / cleanup events) the observed handler "
+            what = {0: "the model cannot reproduce (for any placement of stop / timer / cleanup events) the observed handler "
                        "invocations of",
                     -1: "the model's search was cut off by its node budget before reproducing the observed handler "
-                        "invocations of"}[v]
+                        "invocations of",
+                    -2: "the model evaluation of this single scenario exhausted its CPU budget (%d s) for" % CPU_SINGLE}[v]
             mism.append({"what": "%s scenario %d op %d, given the recorded system call results" % (what, s.sid, i),
                          "detail": {"op": c[1], "syscalls": c[2][:600], "observed": c[3][:600],
-                                    "model_without_async_events": model_predict(c) if v is not None else raw[-800:],
-                                    "script": s.lines}})
+                                    "model_without_async_events": model_predict(c), "script": s.lines}})
     # one failure per clause and kind is enough for the report; keep the first of each key
     seen, uniq = set(), []
     for f in fails:
@@ -856,7 +974,8 @@ def correspond(ctx):
                     "barrier between, ECANCELED after close/stop, cleanup handler once after all handlers",
             "samples": samples, "distribution": dist, "mismatches": mism, "failures": uniq[:20],
             "notes": (["%d operations could not be reproduced by the model" % nbad] if nbad else []) +
-                     ["harness %.0f s, model evaluation %.0f s" % (th, t2 - t1)]}
+                     (["%d model evaluations inconclusive (no result and no exhausted CPU budget)" % ninc] if ninc else []) +
+                     ["harness %.0f s, model evaluation %.0f s" % (th, t2 - t1)] + mlog[:12]}
 
 
 def scn_meta(s):
